@@ -783,6 +783,7 @@ class Problem:
         # function value returned by the last of them.
         self._n_eval = 0
         self._fun_last = np.nan
+        self._maxcv_last = np.nan
 
         # Set the initial history.
         self._store_history = store_history
@@ -825,6 +826,7 @@ class Problem:
         self._n_eval += 1
         self._fun_last = fun_val
         maxcv_val = self.maxcv(x, cub_val, ceq_val)
+        self._maxcv_last = maxcv_val
         if self._store_history:
             self._fun_history.append(fun_val)
             self._maxcv_history.append(maxcv_val)
@@ -992,6 +994,21 @@ class Problem:
             Objective function value at the last evaluated point.
         """
         return self._fun_last
+
+    @property
+    def maxcv_last(self):
+        """
+        Maximum constraint violation at the last evaluated point.
+
+        It is computed from the values returned by the constraint functions
+        themselves: the extreme barrier is not applied to them.
+
+        Returns
+        -------
+        float
+            Maximum constraint violation at the last evaluated point.
+        """
+        return self._maxcv_last
 
     @property
     def fun_name(self):
